@@ -5,7 +5,7 @@
 \* MaxD   nesting depth of constructs          Cnts   repetition counts / number of IRP arguments / IRPC characters
 \* NPre/NPost  statements before / after the nested construct in a body     Rich   IRPN, GLOBALSYMBOLS, keyword / excess
 \* arguments, expression atoms            Focus  add the focused families (MacroProc_MC!Small)
-CONSTANTS Fixed = {"EmptyBodyPop", "IrpcEmptyOnce", "TokenStraddle", "ShiftExcess", "IrpPosNext", "IrpDoubleCleanup"}
+CONSTANTS Fixed = {"EmptyBodyPop", "IrpcEmptyOnce", "TokenStraddle", "ShiftExcess", "IrpPosNext", "IrpDoubleCleanup", "AllArgsLeadingEmpty"}
           HasAttrs = FALSE MaxNum = 99
           MaxD = 2 Cnts = {0, 2} NPre = 1 NPost = 1 Rich = FALSE Focus = TRUE
 SPECIFICATION Spec
